@@ -75,16 +75,30 @@ def do_import(tree, sid, prop):
     return ok
 
 
-def do_run(ids, tier="quick"):
+def do_run(ids, tier="quick", worktree=False):
+    """`worktree=False` (the reference protocol): `git -C /repo apply <patch>`, run the checks, `git -C /repo checkout -- .`
+    straight afterwards.  `worktree=True`: the same in a throw-away worktree of /repo that the check is pointed at with
+    PBVERIF_REPO — /repo itself is never touched, so this mode can run next to other work on the unchanged tree."""
+    import tempfile
     ids = ids or sorted(p.name for p in SEEDED.iterdir() if (p / "meta.json").exists())
     for sid in ids:
         d = SEEDED / sid
         meta = json.loads((d / "meta.json").read_text())
         if not meta.get("kept"):
             continue
-        rc, out = sh(f"git -C /repo apply {d / 'patch.diff'}")
+        tree = "/repo"
+        if worktree:
+            tree = tempfile.mkdtemp(prefix="pbseedrun-")
+            os.rmdir(tree)
+            rc, out = sh(f"git -C /repo worktree add -q --detach {tree} HEAD")
+            if rc != 0:
+                print(sid, "cannot create worktree:", out[-300:])
+                continue
+        rc, out = sh(f"git -C {tree} apply {d / 'patch.diff'}")
         if rc != 0:
             print(sid, "patch does not apply:", out[-300:])
+            if worktree:
+                sh(f"git -C /repo worktree remove --force {tree}")
             continue
         try:
             props = [meta["property"]] + meta.get("also_check", [])
@@ -93,16 +107,23 @@ def do_run(ids, tier="quick"):
                     meta["checks"][pid] = "check not built"
                     continue
                 env = dict(os.environ, PBVERIF_OUT=str(VERIF / ".work" / "seeded"), PBVERIF_SEARCH_S="30")
+                if worktree:
+                    env["PBVERIF_REPO"] = tree
                 rc, out = sh(f"bin/check {pid} {tier}", cwd=VERIF, env=env)
                 line = [l for l in out.splitlines() if l.startswith("VIOLATION")]
                 meta["checks"][pid] = dict(rc=rc, line=line[0] if line else out.strip().splitlines()[-1:])
                 print(sid, pid, meta["checks"][pid])
         finally:
-            sh("git -C /repo checkout -- .")
+            if worktree:
+                sh(f"git -C /repo worktree remove --force {tree}")
+            else:
+                sh("git -C /repo checkout -- .")
         (d / "meta.json").write_text(json.dumps(meta, indent=1) + "\n")
 
 
 if __name__ == "__main__":
     if sys.argv[1] == "import":
         sys.exit(0 if do_import(*sys.argv[2:5]) else 1)
-    do_run(sys.argv[2:])
+    args = sys.argv[2:]
+    wt = "--worktree" in args
+    do_run([a for a in args if a != "--worktree"], worktree=wt)
